@@ -69,6 +69,9 @@ type Op struct {
 	// OutPW: passwords that open the op's result (user, owner).
 	OutPW [2]string
 	Note  string
+	// NeedsUserFont: the op needs the user font Roboto-Regular (form appearance streams); the engine points
+	// font.UserFontDir at a process-wide directory outside the sandbox before the run.
+	NeedsUserFont bool
 }
 
 var registry = map[string]*Op{}
